@@ -117,10 +117,22 @@ def main():
                     continue
                 for kind in kinds:
                     stats['substitutions'] += 1
+                    sd = None
                     try:
                         sd = build(cls, meth, args, subst=(i, BADS[kind]))
                         b = B.take_bytes(sd)
                     except BaseException as e:
+                        if sd is not None:
+                            # the definition was built and as_bytes() raised: a second call must not hand out
+                            # what the failed attempt left behind
+                            try:
+                                again = bytes(sd.as_bytes())
+                                bad.append({'cls': name, 'meth': meth, 'arg': a[1], 'kind': kind, 'bytes': again.hex(),
+                                            'checker': 'SynthDef.as_bytes (second call after a failed one)',
+                                            'what': 'as_bytes() raised %s, the same call repeated RETURNED %d bytes' % (type(e).__name__, len(again)),
+                                            'python': 'as_bytes() twice on the SynthDef of %s.%s with %s=%s' % (name, meth, a[1], kind)})
+                            except BaseException:
+                                pass
                         _main.main._current_synthdef = None
                         stats['raised'] += 1
                         key = 'exc:' + type(e).__name__ + ':' + str(e)[:40]
